@@ -31,7 +31,7 @@ def _post(result, args, kwargs, old):
     from parso.utils import split_lines
     ctx.count('evaluations')
     ctx.count('contract_evals:Grammar.parse')
-    v = _state.get('version')
+    v = _ver(args)
     viol, info = treechecks.check_positions(result, code, split_lines)
     for kind, msg in viol:
         ctx.violation(kind, msg, {'version': v, 'code': code})
@@ -75,6 +75,8 @@ def _gen(rng, files):
 def run_shard(spec, ctx):
     import parso
     _install(ctx)
+    if spec['kind'] == 'suite':
+        return _text.run_repo_suite(ID, ctx)
     it = _text.whole_files(spec, ctx) if spec['kind'] == 'files' else _text.cases(spec, ctx, gen=_gen)
     for v, code, origin in it:
         _state['version'] = v
@@ -100,8 +102,19 @@ def shards(tier, seed):
     nf = 16
     s += [{'kind': 'files', 'shard': i, 'nshards': nf, 'file_stride': 12 if tier == 'quick' else 1,
            'budget_s': 60 if tier == 'quick' else 900} for i in range(nf)]
+    if tier == 'thorough':
+        s.append({'kind': 'suite'})
     return s
 
 
 def floors(tier):
     return {'evaluations': 5000, 'leaves_multiline': 500, 'leaves_virtual': 300}
+
+
+def _ver(args):
+    gv = getattr(args[0], 'version_info', None) if args else None
+    return '%d.%d' % (gv.major, gv.minor) if gv is not None else _state.get('version')
+
+
+def install_for_suite(ctx):
+    _install(ctx)
